@@ -303,6 +303,12 @@ fn expected_vec(
         if !dom.is_element(a) {
             continue;
         }
+        // row groups are transparent here: the crate merges their rows into the table and
+        // drops the group's own style (recorded under C09); rows and cells compete on
+        // their own declarations only
+        if matches!(dom.html_name(a), Some("thead") | Some("tbody") | Some("tfoot")) {
+            continue;
+        }
         let mut fg: Vec<RefDecl<(u8, u8, u8)>> = Vec::new();
         let mut bg: Vec<RefDecl<(u8, u8, u8)>> = Vec::new();
         for (oi, rules) in sheets.iter().enumerate() {
@@ -376,6 +382,36 @@ fn gen_tree(rng: &mut Rng, tok: &mut Tokens, depth: usize) -> Node {
         p.long_permille = 0;
         p
     };
+    if depth < 2 && rng.chance(1, 6) {
+        // a table with row groups; groups, rows and cells carry classes / ids, every cell
+        // owns a token
+        let mut attrs = |rng: &mut Rng, mut e: El| -> El {
+            if rng.chance(1, 2) {
+                e.attrs.push(("class".into(), format!("c{}", rng.below(3))));
+            }
+            if rng.chance(1, 4) {
+                e.attrs.push(("id".into(), format!("i{}", rng.below(3))));
+            }
+            e
+        };
+        let mut groups = Vec::new();
+        for g in ["thead", "tbody", "tfoot"] {
+            if g != "tbody" && rng.chance(1, 2) {
+                continue;
+            }
+            let mut rows = Vec::new();
+            for _ in 0..rng.range(1, 2) {
+                let mut cells = Vec::new();
+                for _ in 0..rng.range(1, 2) {
+                    let c = El::with("td", vec![Node::Word(tok.unique(rng, &p))]);
+                    cells.push(attrs(rng, c).node());
+                }
+                rows.push(attrs(rng, El::with("tr", cells)).node());
+            }
+            groups.push(attrs(rng, El::with(g, rows)).node());
+        }
+        return attrs(rng, El::with("table", groups)).node();
+    }
     let block = depth < 3 && rng.chance(2, 3);
     let tag = if block {
         *rng.pick(&["div", "blockquote", "p"])
